@@ -73,7 +73,7 @@ def account(ctx, tpath):
 
 def run(ctx):
     if not ctx.quick():
-        ctx.mc("OutlierDetectionMC", "OutlierDetectionMCdeep.cfg", workers=8, timeout=1500)  # 6 events
+        ctx.mc("OutlierDetectionMC", "OutlierDetectionMCdeep.cfg", workers=8, timeout=1500)  # 5 events, volumes up to 4
     ctx.neg("OutlierDetectionMC", "OutlierDetectionNeg.cfg", expect="I_OnlyBelowMaxPercent", workers=4)
     binary = ctx.go_build("internal/xds/balancer/outlierdetection", name="c40", only=r"zz_verif_c40_")
     # the graph dump is an exhaustive model check of the generation scope (all invariants are in the cfg)
